@@ -32,7 +32,10 @@ class JWTAccessTokenClaims(JWTClaims):
         # or 'application/at+jwt' and reject tokens carrying any other value.
         # 'typ' is not a required claim, so we don't raise an error if it's missing.
         typ = self.header.get("typ")
-        if typ and typ.lower() not in ("at+jwt", "application/at+jwt"):
+        if typ and (
+            not isinstance(typ, str)
+            or typ.lower() not in ("at+jwt", "application/at+jwt")
+        ):
             raise InvalidClaimError("typ")
 
     def validate_client_id(self):
